@@ -161,15 +161,16 @@ def parse_replay_line(line):
     return json.loads(json.loads(line[len("<<\"REPLAY\", "):-2]))
 
 
-def run_vh(args, files, procs=None, timeout=3600, env=None):
-    """Runs `vh <args> --slice i/n <files>` in n processes and merges the reports."""
+def run_vh(args, files, procs=None, timeout=3600, env=None, stride=1):
+    """Runs `vh <args> --slice i/n <files>` in n processes and merges the reports.
+    stride = k > 1 replays only every k-th case (sub-sampling of a TLC enumeration)."""
     procs = procs or NPROC
     ps = []
     e = dict(os.environ)
     if env:
         e.update({k: str(v) for k, v in env.items()})
     for i in range(procs):
-        cmd = [str(VH)] + list(args) + ["--slice", f"{i}/{procs}"] + [str(f) for f in files]
+        cmd = [str(VH)] + list(args) + ["--slice", f"{i}/{procs * stride}"] + [str(f) for f in files]
         ps.append(subprocess.Popen(cmd, stdout=subprocess.PIPE, stderr=subprocess.PIPE, text=True, env=e))
     reports = []
     for p in ps:
